@@ -17,6 +17,36 @@ from .rparser import N, parse_macro_args, parse_matches_macro
 INLINED = []          # fn nodes inlined at a call site (read by tools/inventory.py)
 
 
+def rename_ident(x, a, b):
+    """copy of the AST `x` with the variable `a` read as `b` (paths of one segment and identifier tokens of macro
+    arguments); a pattern that binds `a` again is an error (for `reborrow_lets`)"""
+    from .lexer import Tok
+    if isinstance(x, list):
+        return [rename_ident(y, a, b) for y in x]
+    if isinstance(x, tuple):
+        return tuple(rename_ident(y, a, b) for y in x)
+    if isinstance(x, Tok):
+        return Tok(x.kind, b, x.pos, x.val) if x.kind == "ident" and x.text == a else x
+    if not isinstance(x, N):
+        return x
+    if x.kind == "pident" and x.name == a:
+        raise EmitError("reborrow_lets: %s is bound again while it stands for %s" % (a, b))
+    y = N(x.kind)
+    for kk, vv in x.__dict__.items():
+        if kk == "kind":
+            continue
+        if kk == "segs" and x.kind == "path" and vv == [a]:
+            y.segs = [b]
+        else:
+            setattr(y, kk, rename_ident(vv, a, b))
+    return y
+
+
+class ClosureTy(tuple):
+    """the type ("closure", captured, parameter types) of a closure value; `.ret` = the type of its body's value"""
+    ret = None
+
+
 class EmitError(Exception):
     pass
 
@@ -755,6 +785,8 @@ class Emitter:
             raise EmitError("struct literal %s: no constructor in the vocabulary" % name)
         order = st["ctor"][1]
         given = dict(e.fields)
+        if e.base is not None and set(given) <= set(order) and len(given) == len(e.fields):
+            return self.structlit_update(e, st, name, env, k)
         if e.base is not None or set(given) != set(order):
             raise EmitError("struct literal %s: fields %r, expected %r" % (name, sorted(given), order))
         vals = []
@@ -769,6 +801,24 @@ class Emitter:
                 vals.append(given[f])
         return self.exprs(vals, env,
                           lambda ts, tys, env1: k("(%s %s)" % (st["ctor"][0], " ".join(ts)), ("struct", name), env1))
+
+    def structlit_update(self, e, st, name, env, k):
+        """struct update syntax `S { f: v, .. base }` on a vocabulary struct with a constructor: the fields written are
+        evaluated in the order written, then the base; the other fields are the base's (through the field getters)"""
+        order = st["ctor"][1]
+        written = [f for f, _x in e.fields]
+        for f in order:
+            if f not in written and not st["fields"][f][0]:
+                raise EmitError("struct update %s { .. }: field %s has no getter in the vocabulary" % (name, f))
+
+        def k_vals(ts, tys, env1):
+            def k_base(bt, bty, env2):
+                if bty != ("struct", name):
+                    raise EmitError("struct update %s { .. base }: the base has type %r" % (name, bty))
+                vals = [ts[written.index(f)] if f in written else "(%s %s)" % (st["fields"][f][0], bt) for f in order]
+                return k("(%s %s)" % (st["ctor"][0], " ".join(vals)), ("struct", name), env2)
+            return self.expr(e.base, env1, k_base)
+        return self.exprs([x for _f, x in e.fields], env, k_vals)
 
     def e_rawterm(self, e, env, k):
         """a Gallina term chosen by the translator itself (never produced by the Rust parser)"""
@@ -1032,6 +1082,15 @@ class Emitter:
             if it.kind in ("struct", "enum", "impl", "fn"):
                 return rest(env)     # local items: must be known to the vocabulary when used
             raise EmitError("local item %s" % it.kind)
+        if (s.kind == "let" and self.v.get("reborrow_lets") and s.init is not None and s.els is None and s.pat.kind == "pident"
+                and not s.pat.mut and s.init.kind == "path" and len(s.init.segs) == 1 and s.init.segs[0] != s.pat.name
+                and s.ty is not None and s.ty.form == "ref" and s.ty.mut and env.get(s.init.segs[0]) is not None
+                and env.get(s.init.segs[0]).ty == self.ty_of_ast(s.ty)):
+            # optional vocabulary key `reborrow_lets: True`: `let w: &mut T = f;` -- a `&mut` variable handed on under
+            # another name (the coercion to a trait object) where the vocabulary gives both types the same model: the
+            # rest of the block is translated with `w` read as `f` (writes through `w` are writes to `f`)
+            a, b = s.pat.name, s.init.segs[0]
+            return self.stmts([rename_ident(x, a, b) for x in stmts[i + 1:]], 0, rename_ident(tail, a, b) if tail is not None else None, env, k)
         if s.kind == "let":
             return self.let_stmt(s, env, rest)
         if s.kind == "expr":
@@ -1119,6 +1178,12 @@ class Emitter:
         if s.init is None or s.els is not None:
             raise EmitError("let without initialiser / let-else")
         ann = self.ty_of_ast(s.ty) if s.ty is not None else None
+        if (self.v.get("reborrow_lets") and s.pat.kind == "pident" and not s.pat.mut and s.init.kind == "path" and s.init.segs == [s.pat.name]
+                and s.ty is not None and s.ty.form == "ref" and s.ty.mut and env.get(s.pat.name) is not None and env.get(s.pat.name).ty == ann):
+            # optional vocabulary key `reborrow_lets: True`: `let x: &mut T = x;` (a `&mut` variable re-typed under its own
+            # name: the coercion to a trait object) where the vocabulary gives both types the same model is the same
+            # variable -- writes through the new reference are writes to the old one
+            return rest(env)
         if ann is None and s.pat.kind == "pident":
             # optional vocabulary key `local_types: {fn: {local: type}}`: the type of a local whose
             # initialiser does not determine it (`let mut r = None;`)
@@ -1994,6 +2059,8 @@ class Emitter:
         shape = self.fn_shapes.get(key) or (None if std_path else self.fn_shapes.get(name))
         if shape is None:
             ext = self.v.get("fns", {}).get(key) or self.v.get("fns", {}).get(name)
+            if ext is None and len(f.segs) == 1 and env.get(name) is not None and env.get(name).ty[0] == "closure":
+                return self.call_closure(env.get(name), e.args, env, k)     # a local closure variable
             if ext is None:
                 # neither translated nor in the vocabulary: a helper DEFINED in the parsed source is inlined
                 loc = self.local_callee(f.segs)
@@ -2306,6 +2373,10 @@ class Emitter:
             st.append(c)
             env2 = env2.rebind(n, c)
         stpat = "_" if not st else (st[0] if len(st) == 1 else "'(%s)" % ", ".join(st))
+        if self.v.get("closure_state_types") and len(st) > 1:
+            # optional vocabulary key `closure_state_types: True`: the tuple of captured variables is annotated with its
+            # type (Coq cannot always infer the product from the body)
+            stpat = "'((%s) : %s)" % (", ".join(st), " * ".join(self.coq_ty(env.get(n).ty) for n in cap))
 
         def fin(envx, term, ty=None):
             if ty is not None and ty != UNKNOWN:
@@ -2317,7 +2388,14 @@ class Emitter:
         self.closure_ret_ty = UNKNOWN
         self.ctl = Ctl(lambda envx, t, ty: fin(envx, t, ty))
         try:
+<<<<<<< HEAD
             body = self.expr(cl.body, env2, lambda t, ty, envx: fin(envx, t, ty))
+=======
+            def fin_ty(t, ty, envx):
+                self.closure_ret = ty
+                return fin(envx, t)
+            body = self.expr(cl.body, env2, fin_ty)
+>>>>>>> 7fe7b14a8fdc6b568909c60339af9bf83d93fe04
         finally:
             self.ctl = old
             self.pure_mode = oldpm
@@ -2527,7 +2605,44 @@ class Emitter:
     # function of closure_st; its type records the captured (assigned) variables
     def e_closure(self, e, env, k):
         ptys = [self.ty_of_ast(ty) if ty is not None else UNKNOWN for _p, ty in e.params]
+<<<<<<< HEAD
         return self.closure_st(e, ptys, env, lambda fterm, cap, env1: k(fterm, ("closure", tuple(cap), tuple(ptys), getattr(self, "closure_ret_ty", UNKNOWN)), env1))
+=======
+        # optional vocabulary key `closure_param_types: {fn: [types]}`: the types of closure parameters written without
+        # a type annotation (`|c| ..`), by position
+        given = self.v.get("closure_param_types", {}).get(self.cur_fn)
+        if given is not None and len(given) == len(ptys):
+            ptys = [g if p == UNKNOWN else p for p, g in zip(ptys, given)]
+        self.closure_ret = None
+
+        def k1(fterm, cap, env1):
+            ty = ClosureTy(("closure", tuple(cap), tuple(ptys)))
+            ty.ret = self.closure_ret      # type of the body's value (for a call of the closure variable, call_closure)
+            return k(fterm, ty, env1)
+        return self.closure_st(e, ptys, env, k1)
+
+    def call_closure(self, var, args, env, k):
+        """`f(args)` where `f` is a local variable bound to a closure (e_closure): the state-passing function is applied
+        to the arguments and the current values of the captured variables, which are rebound from its answer"""
+        _c, cap, ptys = var.ty
+        if len(args) != len(ptys):
+            raise EmitError("closure %s called with %d arguments" % (var.coq, len(args)))
+
+        def k_args(ts, tys, env1):
+            st = self.fresh("st")
+            r = self.fresh("r")
+            names = []
+            env2 = env1
+            for n in cap:
+                c = self.fresh(env1.get(n).coq.rstrip("0123456789") or n)
+                names.append(c)
+                env2 = env2.rebind(n, c)
+            pat = "_" if not names else (names[0] if len(names) == 1 else "'(%s)" % ", ".join(names))
+            rest = k(r, getattr(var.ty, "ret", None) or UNKNOWN, env2)
+            return "'(%s, %s) <- %s %s %s ;;\nlet %s := %s in\n%s" % (
+                st, r, var.coq, " ".join(ts), self.tuple_of([env1.get(n).coq for n in cap]), pat, st, rest)
+        return self.exprs(args, env, k_args)
+>>>>>>> 7fe7b14a8fdc6b568909c60339af9bf83d93fe04
 
     def e_while(self, e, env, k):
         return self.while_like(e.cond, e.body, env, k)
